@@ -82,7 +82,24 @@ impl C03Space {
     }
 }
 
+/// tree-sitter-kotlin-ng loses every comment that follows `val …` NEWLINE(s) `/* … */ val …`
+/// (a block comment followed by a `val` declaration on the same line, after an earlier `val`
+/// declaration that has no semicolon). Inputs of that shape get their own fingerprint class so
+/// that the known finding covers exactly them.
+fn kotlin_val_blockcomment_val(kit: &Kit, segs: &[Seg]) -> bool {
+    if kit.grammar != "kotlin" {
+        return false;
+    }
+    let is_val = |s: &Seg| matches!(s, Seg::Code(0) | Seg::Decoy(_));
+    (0..segs.len()).any(|i| {
+        matches!(segs[i], Seg::Comment { layout: langkit::Layout::SameLine, .. })
+            && segs.get(i + 1).is_some_and(is_val)
+            && segs[..i].iter().any(is_val)
+    })
+}
+
 pub fn check_segs(kit: &'static Kit, file: &str, segs: &[Seg], cross_family: bool, sink: &Sink) {
+    let quirk = if kotlin_val_blockcomment_val(kit, segs) { ":val-NL-blockcomment-val" } else { "" };
     let input = json!({"grammar": kit.grammar, "file": file, "cross_family": cross_family, "segs": segs.iter().map(langkit::seg_json).collect::<Vec<_>>()});
     let mut nontrivial = false;
     for crlf in [false, true] {
@@ -91,7 +108,7 @@ pub fn check_segs(kit: &'static Kit, file: &str, segs: &[Seg], cross_family: boo
         sink.exec();
         let outcome = run_list(file, &rendered.text);
         let eol = if crlf { "crlf" } else { "lf" };
-        let tag = if cross_family { ":cross-family" } else { "" };
+        let tag = format!("{}{quirk}", if cross_family { ":cross-family" } else { "" });
         match &outcome {
             Outcome::Report { blocks, .. } => {
                 let problems = compare(&rendered, blocks, false);
